@@ -36,7 +36,7 @@ class C05(Prop):
                   '(wire order is compared, not the internal order of the queue).')
     design_ref = '§5 C05'
     rule = ('random histories of enqueue (payload of 1..5 fragments, bare complete, error, cancel, request-n, keepalive on stream 0, priority frame) on 1..4 streams '
-            'and sender releases, fragment size in {none,64,80}, both framings; non-trivial = at least two frames of one stream queued while an earlier fragmented frame '
+            'and sender releases, fragment size in {none,64,80}, both framings; frames the library queues itself (ERROR[REJECTED] for a duplicate request, the request of a requester it opens - 1..5 fragments -, its REQUEST_N and its CANCEL, possibly while the request is still being sent); non-trivial = at least two frames of one stream queued while an earlier fragmented frame '
             'of that stream is in flight; distinct = distinct history')
     assumptions = ['the sender task is the only consumer of the send queue']
 
@@ -64,8 +64,12 @@ class C05(Prop):
                     acts.append(['enq', 0, 'keepalive', 0, 3, False])
                 elif x < 0.53:
                     acts.append(['front', 0, 'keepalive', 0, 3, False])
-                elif x < 0.62 and x >= 0.58:
-                    acts.append(['libreqn', sid, 0])
+                elif x < 0.61 and x >= 0.58:
+                    # a requester the library opens itself (its request may need several fragments), later its REQUEST_N
+                    acts.append(['libreqn', sid, rng.choice([0, 0, 150, 260])])
+                elif x < 0.62 and x >= 0.61:
+                    # ... and its CANCEL, possibly while the request is still being sent
+                    acts.append(['libcancel', sid])
                 elif x < 0.58:
                     # the peer re-uses a stream id that is open: the library itself queues ERROR[REJECTED] on that stream
                     acts.append(['peerdup', sid])
@@ -119,21 +123,29 @@ class C05(Prop):
                 _, want_sid, n = a
                 sub = lib_subs.get(want_sid)
                 if sub is None:
-                    if not lib_subs:
+                    if not any(x['kind'] == 'lib-request' for x in sources):
                         server._stream_control._current_stream_id = 98      # ids the library allocates: 100, 102, ... (apart from the harness's 2..8)
-                    req = server.request_stream(Payload(b'lib'))
+                    tag = len(sources) + 1
+                    body = bytes([tag % 251]) * n if n else b'lib'
+                    req = server.request_stream(Payload(body))
                     sid = req.stream_id
                     sub = lib_subs[want_sid] = LSub()
                     sub.sid = sid
-                    tag = len(sources) + 1
-                    sources.append({'tag': tag, 'sid': sid, 'kind': 'lib-request', 'k': 1, 'frame': None})
-                    events.append('e%d:%d' % (sid, tag * 100))
+                    sources.append({'tag': tag, 'sid': sid, 'kind': 'lib-request', 'k': frag_count(0, len(body), case['F'], case['lp'], hdr=10), 'frame': None, 'body': tag % 251 if n else None})
+                    events.append('e%d:%s' % (sid, ','.join(str(tag * 100 + i) for i in range(sources[-1]['k']))))
                     req.initial_request_n(1).subscribe(sub)
                 else:
                     tag = len(sources) + 1
                     sources.append({'tag': tag, 'sid': sub.sid, 'kind': 'lib-request-n', 'k': 1, 'frame': None, 'n': 1000 + tag})
                     events.append('e%d:%d' % (sub.sid, tag * 100))
                     sub.subscription.request(1000 + tag)
+            elif a[0] == 'libcancel':
+                sub = lib_subs.pop(a[1], None)
+                if sub is not None and sub.subscription is not None:
+                    tag = len(sources) + 1
+                    sources.append({'tag': tag, 'sid': sub.sid, 'kind': 'lib-cancel', 'k': 1, 'frame': None})
+                    events.append('e%d:%d' % (sub.sid, tag * 100))
+                    sub.subscription.cancel()
             elif a[0] == 'peerdup':
                 sid = a[1]
                 if sid not in opened:
@@ -212,6 +224,13 @@ class C05(Prop):
             if f0 is None and s['kind'] == 'lib-request':
                 from rsocket.frame import RequestStreamFrame
                 if isinstance(fr, RequestStreamFrame) and fr.stream_id == s['sid'] and not s.get('_used'):
+                    s['_used'] = True
+                    return s['tag']
+                if isinstance(fr, PayloadFrame) and fr.stream_id == s['sid'] and s.get('body') is not None and fr.data and set(fr.data) == {s['body']}:
+                    return s['tag']      # a continuation fragment of the library's own request
+                continue
+            if f0 is None and s['kind'] == 'lib-cancel':
+                if isinstance(fr, CancelFrame) and fr.stream_id == s['sid'] and not s.get('_used'):
                     s['_used'] = True
                     return s['tag']
                 continue
